@@ -1,13 +1,412 @@
-import Rivaas.Spec.Lifecycle
-import Rivaas.Model.Lifecycle
+import Rivaas.Lemmas.LifecycleIndep
+import Rivaas.Lemmas.ReloadMutex
 /-
 C09 — Application lifecycle is ordered and shutdown is graceful. Property theorems.
+
+The statement, clause by clause, for the model of the code as it is in /repo now (`current = repaired`,
+after the fix commits for K09a–e), for *every* scenario: arbitrary lists of hooks of each kind, every
+assignment of behaviours (ok / error / panic / blocks until the context ends / signal arrives during the
+hook), listen faults, in-flight requests released at arbitrary points or never, arbitrary reload rounds
+(programmatic or SIGHUP, failing, panicking, with the signal arriving inside), and both outcomes of
+net/http's one-shot idle check. Helper lemmas live in `Lemmas/Lifecycle*.lean`.
 -/
 namespace Rivaas.C09
-open Rivaas.Lifecycle
+open Rivaas.Lifecycle Rivaas.Lifecycle.Spec
 
 /-- the code in /repo carries all five repairs -/
 theorem current_is_repaired : current = repaired := rfl
+
+/-- **C09, main theorem.** For every scenario — arbitrary lists of hooks of each kind with arbitrary fault
+    assignments, listen faults, in-flight requests with arbitrary release points, arbitrary reload rounds
+    and signal positions — and either outcome of net/http's one-shot idle check, what the model of the
+    repaired code does is in the lifecycle language. -/
+theorem run_in_language (sc : Scenario) (race : Bool) : holds sc (run repaired sc race) = true := by
+  have hout := startHooks_out sc.metrics 0 false sc.starts
+  have hcan := startHooks_cancelled sc.metrics 0 false sc.starts
+  unfold run runSegs
+  simp only []
+  cases hf : sc.starts.find? startFails with
+  | some bb =>
+    rw [hf] at hout
+    have hbb : startFails bb = true := by have := List.find?_some hf; simpa using this
+    have hcond : ((sc.starts.find? startFails).isNone && sc.listen == Listen.ok) = false := by simp [hf]
+    cases bb with
+    | ok => simp [startFails] at hbb
+    | cancelOk => simp [startFails] at hbb
+    | panic =>
+      simp only at hout
+      simp only [hout]
+      exact lemma_failed sc false .panic sc.metrics false hcond (by rw [hf])
+    | err =>
+      simp only at hout
+      simp only [hout]
+      exact lemma_failed sc false .errStartup (sc.metrics && !repaired.b) sc.tracing hcond
+        (by rw [hf]; exact ⟨rfl, by simp [repaired], rfl⟩)
+    | block =>
+      simp only at hout
+      simp only [hout]
+      exact lemma_failed sc false .errStartup (sc.metrics && !repaired.b) sc.tracing hcond
+        (by rw [hf]; exact ⟨rfl, by simp [repaired], rfl⟩)
+  | none =>
+    rw [hf] at hout
+    simp only at hout
+    simp only [hout]
+    by_cases hl : sc.listen = Listen.ok
+    · simp only [hl, bne_self_eq_false, Bool.false_eq_true, if_false]
+      by_cases hc : (startHooks sc.metrics 0 false sc.starts).cancelled = true
+      · -- the signal arrived during start-up
+        simp only [hc, if_true]
+        apply lemma_shutdown sc race false _ _ _ hf hl (lemma_naRounds sc)
+        refine ⟨⟨false, rfl⟩, rfl, rfl, kindsIn_nil _, kindsIn_nil _, kindsIn_nil _, by simp [ids_nil], ?_,
+          rfl, rfl, rfl, rfl⟩
+        rcases hcan hc with h | h
+        · cases h
+        · simp only [Segs.before, List.append_nil]
+          exact lemma_any_append_left _ _ h
+      · -- the environment sends its requests, reloads, and then the signal
+        simp only [hc, Bool.false_eq_true, if_false]
+        obtain ⟨r', inv⟩ := LoopInv.rounds repaired sc.nReload _ 0 sc.rounds (LoopInv.init repaired)
+        have hdead := inv.dead rfl
+        simp only [hdead, Bool.false_eq_true, if_false]
+        apply lemma_shutdown sc race true _ _ _ hf hl (inv.res rfl)
+        refine ⟨⟨false, rfl⟩, rfl, rfl, inv.preK, kindsIn_sigIf _ _ (by simp), inv.postK, inv.sorted, ?_,
+          rfl, rfl, rfl, rfl⟩
+        simp only [Segs.before, List.any_append, Bool.or_eq_true]
+        cases hcc : (roundsFrom repaired sc.nReload ⟨[], [], false, false, []⟩ 0 sc.rounds).cancelled
+        · right; simp [sigIf, isSig]
+        · left; right; exact inv.sig hcc
+    · have hcond : ((sc.starts.find? startFails).isNone && sc.listen == Listen.ok) = false := by
+        simp [hf, hl]
+      have hl' : (sc.listen != Listen.ok) = true := by simpa using hl
+      simp only [hl', if_true]
+      exact lemma_failed sc false .errListen (sc.metrics && !repaired.b) sc.tracing hcond
+        (by rw [hf]; exact ⟨rfl, by simp [repaired], rfl⟩)
+
+
+/-- the same for the code as it is now -/
+theorem current_run_in_language (sc : Scenario) (race : Bool) : holds sc (run current sc race) = true :=
+  run_in_language sc race
+
+/-! ### the clauses of the statement, read off the main theorem -/
+
+theorem lemma_unpack {sc : Scenario} {o : Obs} (h : holds sc o = true) :
+    returnsOnce o.log = true ∧ startsOk sc o.log = true ∧ readiesOk sc o.log = true ∧ reloadsOk o = true ∧
+    (if (sc.starts.find? startFails).isNone && sc.listen == Listen.ok then shutdownOk sc o
+     else failedStartOk sc o (sc.starts.find? startFails)) = true := by
+  unfold holds at h
+  obtain ⟨h, h5⟩ := Bool.and_eq_true_iff.mp h
+  obtain ⟨h, h4⟩ := Bool.and_eq_true_iff.mp h
+  obtain ⟨h, h3⟩ := Bool.and_eq_true_iff.mp h
+  obtain ⟨h1, h2⟩ := Bool.and_eq_true_iff.mp h
+  exact ⟨h1, h2, h3, h4, h5⟩
+
+theorem lemma_find_none {hs : List HB} (h : hs.any startFails = false) : hs.find? startFails = none := by
+  apply List.find?_eq_none.mpr
+  intro x hx
+  have := List.any_eq_false.mp h x hx
+  simpa using this
+
+theorem lemma_lastPanic_none (hs : List HB) (i : Nat) (h : hs.all (· != .panic) = true) : lastPanic hs i = none := by
+  induction hs generalizing i with
+  | nil => rfl
+  | cons b rest ih =>
+    simp only [List.all_cons, Bool.and_eq_true, bne_iff_ne, ne_eq] at h
+    simp only [lastPanic, ih (i + 1) h.2]
+    have : (b == HB.panic) = false := by simpa using h.1
+    simp [this]
+
+/-- start-up succeeds and no OnShutdown hook panics: the whole shutdown sequence is demanded, and delivered -/
+theorem lemma_tail {sc : Scenario} {o : Obs} (h : holds sc o = true) (hs : sc.starts.any startFails = false)
+    (hl : sc.listen = Listen.ok) (hp : sc.shuts.all (· != .panic) = true) :
+    shutdownOk sc o = true ∧ tailOk sc o = true := by
+  obtain ⟨_, _, _, _, h5⟩ := lemma_unpack h
+  have hc : ((sc.starts.find? startFails).isNone && sc.listen == Listen.ok) = true := by
+    simp [lemma_find_none hs, hl]
+  rw [hc] at h5
+  simp only [if_true] at h5
+  refine ⟨h5, ?_⟩
+  simp only [shutdownOk, Bool.and_eq_true] at h5
+  obtain ⟨_, h6⟩ := h5
+  rw [lemma_lastPanic_none sc.shuts 0 hp] at h6
+  cases hr : o.res <;> rw [hr] at h6 <;> simp at h6 <;> exact h6
+
+/-- **OnStart hooks run sequentially, in registration order, and the first failure aborts start-up**:
+    the OnStart events of the log are enter 0, leave 0, enter 1, leave 1, … up to and including the
+    first hook that returns an error, panics, or is interrupted by the signal — and nothing after it. -/
+theorem start_hooks_sequential_until_first_failure (sc : Scenario) (race : Bool) :
+    (run repaired sc race).log.filterMap startTag = seqUp (runCount sc.starts) 0 := by
+  obtain ⟨_, h2, _⟩ := lemma_unpack (run_in_language sc race)
+  simp only [startsOk, Bool.and_eq_true, beq_iff_eq] at h2
+  exact h2.1
+
+/-- **… before the listener opens**: no OnStart hook finds the application serving. -/
+theorem start_hooks_before_listener (sc : Scenario) (race : Bool) (i : Nat) (app met : Bool)
+    (h : Ev.startIn i app met ∈ (run repaired sc race).log) : app = false := by
+  obtain ⟨_, h2, _⟩ := lemma_unpack (run_in_language sc race)
+  simp only [startsOk, Bool.and_eq_true] at h2
+  have := List.all_eq_true.mp h2.2 _ h
+  simpa [startProbeOk] using this
+
+/-- **… the first failure aborts startup leaving nothing running**: when an OnStart hook fails or the
+    listen fails, no OnReady hook runs, `Start` does not return nil, and — unless a panicking OnStart
+    hook takes the process down — the server is not serving, the metrics server is closed again and
+    the tracer has flushed (exactly once, before `Start` returns). -/
+theorem failed_startup_clean (sc : Scenario) (race : Bool)
+    (hf : sc.starts.any startFails = true ∨ sc.listen ≠ Listen.ok) :
+    let o := run repaired sc race
+    o.log.any isReady = false ∧ o.res ≠ .ok ∧
+    (o.res ≠ .panic → o.finApp = false ∧ o.finMet = false ∧
+      (sc.tracing = true → o.log.count .flush = 1 ∧ precedes isFlush isRet o.log = true)) := by
+  intro o
+  obtain ⟨_, _, _, _, h5⟩ := lemma_unpack (run_in_language sc race)
+  have hc : ((sc.starts.find? startFails).isNone && sc.listen == Listen.ok) = false := by
+    rcases hf with hf | hf
+    · obtain ⟨x, hx, hp⟩ := List.any_eq_true.mp hf
+      have : (sc.starts.find? startFails).isSome = true := List.find?_isSome.mpr ⟨x, hx, hp⟩
+      cases hfd : sc.starts.find? startFails with
+      | none => rw [hfd] at this; cases this
+      | some _ => rfl
+    · have : (sc.listen == Listen.ok) = false := by simpa using hf
+      simp [this]
+  rw [hc] at h5
+  simp only [Bool.false_eq_true, if_false, failedStartOk, Bool.and_eq_true] at h5
+  obtain ⟨h6, h7⟩ := h5
+  have clean : ∀ {r : Res}, (o.res == r && !o.finApp && telemetryClean sc o) = true →
+      o.res = r ∧ o.finApp = false ∧ o.finMet = false ∧
+        (sc.tracing = true → o.log.count .flush = 1 ∧ precedes isFlush isRet o.log = true) := by
+    intro r h
+    simp only [Bool.and_eq_true, beq_iff_eq, Bool.not_eq_true', telemetryClean, Bool.or_eq_true] at h
+    obtain ⟨⟨h1, h2⟩, h3, h4⟩ := h
+    refine ⟨h1, h2, h3, ?_⟩
+    intro ht
+    rcases h4 with h4 | h4
+    · rw [ht] at h4; cases h4
+    · exact h4
+  refine ⟨by simpa using h6, ?_, ?_⟩
+  · intro hok
+    cases hfd : sc.starts.find? startFails with
+    | none =>
+      rw [hfd] at h7; have := (clean h7).1; rw [hok] at this; cases this
+    | some bb =>
+      rw [hfd] at h7
+      cases bb with
+      | panic =>
+        simp only [Bool.or_eq_true, beq_iff_eq] at h7
+        rcases h7 with h7 | h7
+        · rw [hok] at h7; cases h7
+        · have := (clean h7).1; rw [hok] at this; cases this
+      | ok => have := (clean h7).1; rw [hok] at this; cases this
+      | err => have := (clean h7).1; rw [hok] at this; cases this
+      | block => have := (clean h7).1; rw [hok] at this; cases this
+      | cancelOk => have := (clean h7).1; rw [hok] at this; cases this
+  · intro hnp
+    cases hfd : sc.starts.find? startFails with
+    | none => rw [hfd] at h7; exact (clean h7).2
+    | some bb =>
+      rw [hfd] at h7
+      cases bb with
+      | panic =>
+        simp only [Bool.or_eq_true, beq_iff_eq] at h7
+        rcases h7 with h7 | h7
+        · exact absurd h7 hnp
+        · exact (clean h7).2
+      | ok => exact (clean h7).2
+      | err => exact (clean h7).2
+      | block => exact (clean h7).2
+      | cancelOk => exact (clean h7).2
+
+/-- **OnReady runs only once the server accepts connections**: every OnReady event was logged by a
+    registered hook that found the application serving; no hook runs twice. -/
+theorem ready_only_when_accepting (sc : Scenario) (race : Bool) :
+    (∀ i app met, Ev.ready i app met ∈ (run repaired sc race).log → app = true ∧ i < sc.readies.length) ∧
+    ((run repaired sc race).log.filterMap readyIdx).Nodup := by
+  obtain ⟨_, _, h3, _⟩ := lemma_unpack (run_in_language sc race)
+  simp only [readiesOk, Bool.and_eq_true, nodupNat_iff] at h3
+  refine ⟨?_, h3.2⟩
+  intro i app met h
+  have := List.all_eq_true.mp h3.1 _ h
+  simpa [readyProbeOk] using this
+
+/-- **On shutdown the OnShutdown hooks run in reverse registration order**, each exactly once: enter n-1,
+    leave n-1, …, enter 0, leave 0 — while the server still serves and telemetry is still up, with a
+    context that has not ended unless a hook registered later used up the budget, and never before the
+    stop signal. -/
+theorem shutdown_hooks_lifo (sc : Scenario) (race : Bool) (hs : sc.starts.any startFails = false)
+    (hl : sc.listen = Listen.ok) (hp : sc.shuts.all (· != .panic) = true) :
+    let o := run repaired sc race
+    o.log.filterMap shutTag = seqDown sc.shuts.length 0 ∧
+    o.log.all (shutProbeOk sc) = true ∧ guardedBy isSig isShut o.log = true := by
+  intro o
+  obtain ⟨h1, h2⟩ := lemma_tail (run_in_language sc race) hs hl hp
+  simp only [shutdownOk, Bool.and_eq_true] at h1
+  simp only [tailOk, Bool.and_eq_true, beq_iff_eq] at h2
+  exact ⟨h2.1.1.1, h1.1.2, h1.1.1.1⟩
+
+/-- **… then OnStop hooks run, each exactly once** — whether or not the drain timed out, whatever the
+    hooks do (panics included) — when the server and telemetry are down. -/
+theorem stop_hooks_exactly_once (sc : Scenario) (race : Bool) (hs : sc.starts.any startFails = false)
+    (hl : sc.listen = Listen.ok) (hp : sc.shuts.all (· != .panic) = true) (i : Nat) (hi : i < sc.stops.length) :
+    let o := run repaired sc race
+    (o.log.filterMap stopTag).count (true, i) = 1 ∧ (o.log.filterMap stopTag).count (false, i) = 1 ∧
+    o.log.all (stopProbeOk sc.stops.length) = true := by
+  intro o
+  obtain ⟨_, h2⟩ := lemma_tail (run_in_language sc race) hs hl hp
+  simp only [tailOk, flushStopOk, Bool.and_eq_true] at h2
+  obtain ⟨⟨_, ⟨⟨⟨_, h3⟩, h4⟩, _⟩, _⟩, _⟩ := h2
+  simp only [eachOnce, List.all_eq_true, List.mem_range, Bool.and_eq_true, beq_iff_eq] at h3
+  exact ⟨(h3 i hi).1, (h3 i hi).2, h4⟩
+
+/-- **… OnShutdown hooks, then the drain, then the telemetry flush, then OnStop hooks, and Start returns
+    only afterwards**: every OnShutdown event and every finishing request precedes the flush, every
+    OnStop event and the return; the flush (exactly one when a tracer is configured) precedes every OnStop
+    event and the return; every OnStop event precedes the return; after the return the server is not
+    serving and the metrics server is closed. Drain timeout or not. -/
+theorem drain_flush_stop_return_order (sc : Scenario) (race : Bool) (hs : sc.starts.any startFails = false)
+    (hl : sc.listen = Listen.ok) (hp : sc.shuts.all (· != .panic) = true) :
+    let o := run repaired sc race
+    orderOk o.log = true ∧ (sc.tracing = true → o.log.count .flush = 1) ∧ o.finApp = false ∧ o.finMet = false ∧
+    guardedBy isSig isRet o.log = true := by
+  intro o
+  obtain ⟨h1, h2⟩ := lemma_tail (run_in_language sc race) hs hl hp
+  simp only [shutdownOk, Bool.and_eq_true] at h1
+  simp only [tailOk, flushStopOk, Bool.and_eq_true, Bool.not_eq_true', Bool.or_eq_true, beq_iff_eq] at h2
+  obtain ⟨⟨_, ⟨⟨⟨h3, _⟩, _⟩, h5⟩, h6⟩, h7⟩ := h2
+  refine ⟨h7, ?_, h5, h6, h1.1.1.2⟩
+  intro ht
+  rcases h3 with h3 | h3
+  · rw [ht] at h3; cases h3
+  · exact h3
+
+/-- **Every request accepted before the signal receives its complete response unless the shutdown
+    timeout expires** — and the timeout expires only for a reason (a request that cannot finish, or an
+    OnShutdown hook that used up the budget); no released request ever gets a broken response. -/
+theorem requests_complete_unless_timeout (sc : Scenario) (race : Bool) (hs : sc.starts.any startFails = false)
+    (hl : sc.listen = Listen.ok) (hp : sc.shuts.all (· != .panic) = true) :
+    let o := run repaired sc race
+    (o.res = .ok ∨ o.res = .errDrain) ∧ (o.res = .ok → allComplete o = true) ∧
+    (o.res = .errDrain → timeoutLegit sc = true) ∧ (o.res = .ok → o.reqs.all (· != .incomplete) = true) := by
+  intro o
+  obtain ⟨h1, h2⟩ := lemma_tail (run_in_language sc race) hs hl hp
+  simp only [tailOk, requestsOk, Bool.and_eq_true, Bool.or_eq_true, bne_iff_ne, ne_eq, beq_iff_eq] at h2
+  obtain ⟨⟨⟨_, ⟨⟨h3, h4⟩, h5⟩, _⟩, _⟩, _⟩ := h2
+  refine ⟨?_, ?_, ?_, ?_⟩
+  · simp only [shutdownOk, Bool.and_eq_true] at h1
+    obtain ⟨_, h6⟩ := h1
+    rw [lemma_lastPanic_none sc.shuts 0 hp] at h6
+    cases hr : o.res <;> rw [hr] at h6 <;> simp at h6 <;> simp
+  · intro hr; rcases h4 with h4 | h4
+    · exact absurd hr h4
+    · exact h4
+  · intro hr; rcases h3 with h3 | h3
+    · exact absurd hr h3
+    · exact h3
+  · intro hr; rcases h5 with h5 | h5
+    · rw [hr] at h5; cases h5
+    · exact h5
+
+/-- **Start returns only afterwards**: `Start` returns exactly once, and the only things that can follow
+    in the log are reload calls of the environment. -/
+theorem start_returns_last (sc : Scenario) (race : Bool) : returnsOnce (run repaired sc race).log = true :=
+  (lemma_unpack (run_in_language sc race)).1
+
+/-- **Reloads are serialised** (in the lifecycle model): the reload events of different rounds never
+    interleave, and no `Reload` call panics into its caller. -/
+theorem reload_rounds_never_interleave (sc : Scenario) (race : Bool) :
+    noInterleave ((run repaired sc race).log.filterMap reloadRound) = true ∧
+    (run repaired sc race).rounds.all (· != .panic) = true := by
+  obtain ⟨_, _, _, h4, _⟩ := lemma_unpack (run_in_language sc race)
+  simpa [reloadsOk] using h4
+
+/-- **Reloads are serialised** (interleaving semantics): whatever the programs of the concurrent `Reload`
+    calls and whatever the schedule, with `reloadMu` as the atomic region the emitted hook events of
+    different calls never interleave. -/
+theorem reload_mutex_serialises {α : Type} (progs : List (List α)) (sched : List Nat) :
+    noInterleave ((ReloadMutex.exec progs sched).log.map (·.1)) = true :=
+  ReloadMutex.Inv.serialised _ (ReloadMutex.Inv.exec progs sched)
+
+/-- … and that is the mutex's doing: without it two calls interleave under the schedule 0 0 1 1 0 1 -/
+theorem reload_without_mutex_interleaves :
+    noInterleave ((ReloadMutex.execNoMutex [["a0", "a1"], ["b0", "b1"]] [0, 0, 1, 1, 0, 1]).log.map (·.1)) = false := by
+  decide
+
+/-- **"a failing or panicking reload or OnStop hook leaves the remaining sequence intact".**
+    Replace the reload rounds of a scenario by any others (other hooks failing or panicking, none at all)
+    and the behaviours of the OnStop hooks by any others: apart from the reload events themselves the
+    log, the result of `Start`, the final probes and the client results are the same. -/
+theorem reload_and_stop_faults_leave_sequence_intact (sc : Scenario) (rounds' : List Round) (stops' : List HB)
+    (hlen : stops'.length = sc.stops.length) (race : Bool) :
+    nonReload (run repaired { sc with rounds := rounds', stops := stops' } race) =
+      nonReload (run repaired sc race) := by
+  unfold nonReload run runSegs
+  simp only []
+  cases hout : (startHooks sc.metrics 0 false sc.starts).out with
+  | panicked => simp only [Run.obs, naReqs]
+  | failed => simp only [Run.obs, naReqs, abortObs]
+  | done =>
+    simp only []
+    by_cases hl : (sc.listen != Listen.ok) = true
+    · simp only [hl, if_true, Run.obs, naReqs, abortObs]
+    · simp only [hl, Bool.false_eq_true, if_false]
+      by_cases hc : (startHooks sc.metrics 0 false sc.starts).cancelled = true
+      · simp only [hc, if_true]
+        rw [lemma_filter_shutdownSeq _ _ _ _ _ _ (kindsIn_nil _), lemma_filter_shutdownSeq _ _ _ _ _ _ (kindsIn_nil _),
+          lemma_tail_indep sc rounds' stops' hlen]
+        simp only [shutdownSeq, Run.obs, lemma_tail_indep sc rounds' stops' hlen]
+      · simp only [hc, Bool.false_eq_true, if_false]
+        obtain ⟨r1, inv1⟩ := LoopInv.rounds repaired sc.nReload _ 0 rounds' (LoopInv.init repaired)
+        obtain ⟨r2, inv2⟩ := LoopInv.rounds repaired sc.nReload _ 0 sc.rounds (LoopInv.init repaired)
+        have hd1 := inv1.dead rfl
+        have hd2 := inv2.dead rfl
+        simp only [hd1, hd2, Bool.false_eq_true, if_false]
+        rw [lemma_filter_shutdownSeq _ _ _ _ _ _ inv1.postK, lemma_filter_shutdownSeq _ _ _ _ _ _ inv2.postK,
+          lemma_tail_indep sc rounds' stops' hlen]
+        simp only [lemma_loop_rest sc rounds', lemma_loop_rest sc sc.rounds]
+        simp only [shutdownSeq, Run.obs, lemma_tail_indep sc rounds' stops' hlen]
+
+
+/-! ### non-vacuity: the hypotheses above are met by non-trivial scenarios, the conclusions say something -/
+
+/-- three hooks of each kind, a failing and a panicking OnStop hook, an OnShutdown hook that holds on until the
+    deadline, three requests in flight (released in a hook, during the drain, never), a panicking reload via
+    SIGHUP and a failing programmatic one -/
+def wFull : Scenario :=
+  { metrics := true, tracing := true, listen := .ok, starts := [.ok, .cancelOk, .ok], readies := [.ok, .panic],
+    nReload := 2, shuts := [.ok, .block, .ok], stops := [.ok, .panic, .ok],
+    reqs := [.hook 2, .drain, .never],
+    rounds := [⟨.hup, [.ok, .panic], none, false⟩, ⟨.prog, [.err], none, false⟩] }
+
+/-- the same without the early signal, so that requests and reloads happen -/
+def wFull2 : Scenario := { wFull with starts := [.ok, .ok] }
+
+example : wFull2.starts.any startFails = false ∧ wFull2.listen = Listen.ok ∧
+    wFull2.shuts.all (· != .panic) = true := by decide
+
+example : (run repaired wFull2 false).log.filterMap shutTag =
+    [(true, 2), (false, 2), (true, 1), (false, 1), (true, 0), (false, 0)] := by decide
+
+example : (run repaired wFull2 false).res = .errDrain ∧ (run repaired wFull2 false).reqs = [.complete, .na, .na] ∧
+    (run repaired wFull2 false).rounds = [.na, .err] := by decide
+
+example : (run repaired wFull2 false).log.filterMap stopTag =
+    [(true, 0), (false, 0), (true, 1), (false, 1), (true, 2), (false, 2)] := by decide
+
+example : ((run repaired wFull2 false).log.filterMap reloadRound) = [0, 0, 0, 0, 1, 1] := by decide
+
+/-- a failing start-up that is not vacuous: the third of four OnStart hooks fails, with telemetry on -/
+def wFail : Scenario :=
+  { metrics := true, tracing := true, listen := .ok, starts := [.ok, .ok, .err, .ok], readies := [.ok],
+    nReload := 0, shuts := [.ok], stops := [.ok], reqs := [], rounds := [] }
+
+example : wFail.starts.any startFails = true := by decide
+example : (run repaired wFail false).log =
+    [.startIn 0 false true, .startOut 0, .startIn 1 false true, .startOut 1, .startIn 2 false true, .startOut 2,
+     .flush, .ret] := by decide
+example : (run repaired wFail false).res = .errStartup ∧ (run repaired wFail false).finMet = false := by decide
+
+/-- the independence theorem is not vacuous: the reload rounds of `wFull2` do leave traces in the log -/
+example : (run repaired wFull2 false).log ≠ (run repaired { wFull2 with rounds := [] } false).log := by decide
+example : ((ReloadMutex.exec [["a0", "a1"], ["b0", "b1"]] [0, 0, 1, 1, 0, 1, 0, 0, 1, 1, 1, 1]).log.map (·.1)) =
+    [0, 0, 1, 1] := by decide
 
 /-! ### witnesses: the code as shipped breaks the oracle (K09a–e), the repaired code does not -/
 
@@ -36,16 +435,17 @@ def wK09e : Scenario :=
   { metrics := false, tracing := true, listen := .ok, starts := [], readies := [], nReload := 0,
     shuts := [.block], stops := [.ok], reqs := [], rounds := [] }
 
-theorem asis_ready_before_listen : Spec.holds wK09a (run asShipped wK09a false) = false := by decide
-theorem asis_start_fail_leaks_metrics : Spec.holds wK09b (run asShipped wK09b false) = false := by decide
-theorem asis_drain_timeout_skips_stop : Spec.holds wK09c (run asShipped wK09c false) = false := by decide
-theorem asis_reload_panic_escapes : Spec.holds wK09d (run asShipped wK09d false) = false := by decide
-theorem asis_expired_budget_skips_flush : Spec.holds wK09e (run asShipped wK09e false) = false := by decide
+theorem asis_ready_before_listen : holds wK09a (run asShipped wK09a false) = false := by decide
+theorem asis_start_fail_leaks_metrics : holds wK09b (run asShipped wK09b false) = false := by decide
+theorem asis_drain_timeout_skips_stop : holds wK09c (run asShipped wK09c false) = false := by decide
+theorem asis_reload_panic_escapes : holds wK09d (run asShipped wK09d false) = false := by decide
+theorem asis_expired_budget_skips_flush : holds wK09e (run asShipped wK09e false) = false := by decide
 
 theorem repaired_witnesses :
-    Spec.holds wK09a (run repaired wK09a false) = true ∧ Spec.holds wK09b (run repaired wK09b false) = true ∧
-    Spec.holds wK09c (run repaired wK09c false) = true ∧ Spec.holds wK09d (run repaired wK09d false) = true ∧
-    Spec.holds wK09e (run repaired wK09e false) = true ∧ Spec.holds wK09e (run repaired wK09e true) = true := by
+    holds wK09a (run repaired wK09a false) = true ∧ holds wK09b (run repaired wK09b false) = true ∧
+    holds wK09c (run repaired wK09c false) = true ∧ holds wK09d (run repaired wK09d false) = true ∧
+    holds wK09e (run repaired wK09e false) = true ∧ holds wK09e (run repaired wK09e true) = true := by
   decide
+
 
 end Rivaas.C09
